@@ -36,8 +36,8 @@ PRE = ["UDJUDJDUJDUJ", "JUDDJUUDJJDU", "DJUJDUJUDUDJ"]
 
 def spaces(tier):
     if tier == "quick":
-        return dict(sigma="UDJ", n=3, lifes=(2, 3, 5, 8), tfs=(None, "T2"), horizon=3.0)
-    return dict(sigma="UDJ", n=5, lifes=(2, 3, 5, 8, 11), tfs=(None, "T2"), horizon=6.0)
+        return dict(sigma="UDJ", n=3, lifes=(2, 2.5, 3, 5, 8), tfs=(None, "T2"), horizon=3.0)
+    return dict(sigma="UDJ", n=5, lifes=(2, 2.5, 3, 4.75, 5, 8, 11), tfs=(None, "T2"), horizon=6.0)
 
 
 def explore(item):
@@ -65,7 +65,7 @@ def explore(item):
             continue
         twin = [(c.timestamp.isoformat(), cnum(r)) for c, r in zip(tw.candles, tw.as_list())]
         for life in sp["lifes"]:
-            lifesec = life * step
+            lifesec = int(life * step)  # includes lifespans that are not a whole number of candles / buckets
             for comp in [pc + c for pc in ((len(pre),), (1,) * len(pre), (len(pre) - 2, 2)) for c in A.compositions(sp["n"])]:
                 case = {"cfg": label, "tf": tf, "host": host, "raw": raw, "life": lifesec, "comp": comp}
                 try:
